@@ -113,7 +113,7 @@ def chunks(seq, size=None, dfmt="f", byte_order=None, padval=0.):
   """
   if size is None:
     size = chunks.size
-  chunk = array.array(dfmt, xrange(size))
+  chunk = array.array(dfmt, [0]) * size
   idx = 0
   native = "<" if sys.byteorder == "little" else ">"
   swap = byte_order in ("<", ">", "!") and byte_order.replace("!", ">") != native
